@@ -5,7 +5,9 @@ package c11
 import (
 	"fmt"
 	"math"
+	"math/bits"
 	"testing"
+	"unsafe"
 
 	"github.com/openacid/low/bitmap"
 	"github.com/openacid/low/bmtree"
@@ -23,29 +25,126 @@ func init() { keep = checker.Keep }
 
 func TestMain(m *testing.M) { vk.Main(m, "C11") }
 
+// Ref names a string argument: a literal, or a substring of one of the two big process-wide buffers (so that
+// long strings, every address alignment and foreign bytes around the string cost nothing in the case file).
+type Ref struct {
+	K   string `json:"k,omitempty"`   // "" literal S | "p" gen.PoolC11()[Off:Off+Len] | "m" gen.MaxString(0)[Off:Off+Len]
+	Off int64  `json:"off,omitempty"` // p, m
+	Len int64  `json:"len,omitempty"` // p, m
+	Own bool   `json:"own,omitempty"` // p: a fresh heap copy of exactly Len bytes instead of the substring
+	S   vk.Hex `json:"s,omitempty"`   // literal
+}
+
 type Case struct {
-	Op    string   `json:"op"`            // fromstr32 (also checks PathOf) | pathsof | maxstr
+	Op    string   `json:"op"`            // fromstr32 (also checks PathOf) | sub (the same on Ref) | pathsof | maxstr
 	Cut   int      `json:"cut,omitempty"` // maxstr: the string is the maximum string (2^28 bytes, gen.MaxString) without its last Cut bytes
 	S     vk.Hex   `json:"s,omitempty"`
+	Ref   *Ref     `json:"ref,omitempty"` // sub
 	From  int32    `json:"from"`
 	W     int      `json:"w"`
-	Keys  []vk.Hex `json:"keys,omitempty"`
+	Keys  []vk.Hex `json:"keys,omitempty"` // pathsof: literal keys, or
+	Refs  []Ref    `json:"refs,omitempty"` // pathsof: the keys (Idx == nil) / the distinct keys that Idx picks from
+	Idx   []int32  `json:"idx,omitempty"`  // pathsof: key i of the list is Refs[Idx[i]]
+	Laid  bool     `json:"laid,omitempty"` // pathsof: the list is Idx over Refs even when Idx is empty (an empty list of keys)
 	Dedup bool     `json:"dedup,omitempty"`
 	Class string   `json:"class,omitempty"`
 }
 
 var checker = &vk.Checker[Case]{
 	ID: "C11",
-	Rule: "byte strings over the full alphabet (00/01/7f/80/ff boosted, length 0..12, thorough 0..64) x start bit (inside at every alignment, exactly at the end, just beyond, far beyond up to 2^31-1-32) x width 0..32; FromStr32 and PathOf (height = width) against bit-by-bit extraction, PathStr(PathOf) against the bits as text; " +
-		"PathsOf on key lists with adjacent and non-adjacent repeats, dedup on/off, against an own map+drop-equal-to-predecessor loop (including the all-ones window at height 32). Grid: every (start bit mod 8, width, bytes remaining 0..6) x 2 leads x 24 fixed contents. " +
+	Rule: "byte strings over the full alphabet (00/01/7f/80/ff boosted, literal length 0..40, thorough 0..200; substrings of a 16 MiB pseudo-random pool with all-ff / all-00 blocks, length log-uniform 0..2^22 (thorough 2^24) with 2^k-1, 2^k, 2^k+1 boosted, at every address alignment or as an own heap copy; literals reach the library as an own heap string or as a substring at an odd address, by checksum) x start bit (inside uniform and log-uniform, at every alignment, around '16 bytes left after the start byte', exactly at the end, just beyond, far beyond up to 2^31-1-32, up to MaxInt32 for PathOf) x width 0..32; FromStr32 and PathOf (height = width) against bit-by-bit extraction from the description of the string, PathStr(PathOf) against the bits as text; " +
+		"PathsOf on key lists with adjacent and non-adjacent repeats, dedup on/off, nil / empty list, against an own map+drop-equal-to-predecessor loop (including the all-ones window at height 32): literal lists of 0..12 keys with start bit < 200, and lists of 0..2^13 (thorough 2^15) positions, log-uniform, laid in runs / cycles / every m-th / independently over 1..6 distinct keys that end before the start bit, inside the window or far behind it (pool substrings, own copies, prefixes of one another, literal ff runs), start bit log-uniform up to 2^27. " +
+		"Grid: every (start bit mod 8, width, bytes remaining 0..6) x 2 leads x 24 fixed contents; (start bit mod 8, 12 widths, bytes remaining 7..40) x 2 leads on pool substrings and own copies; string lengths, PathsOf start bytes and PathsOf list lengths at 2^k-1, 2^k, 2^k+1 and three seed-dependent values in every octave (lengths to 2^24, start bits to 2^27, lists to 2^14; lists of >= 100 keys under every GOMAXPROCS setting in the procs process). " +
+		"Last: the 2^28-byte string and its substrings: lengths over every octave to 2^28 ending at its 13 non-zero last bytes with start bits around the end (to 2^31-1), and its two non-zero middle bytes placed at byte X for X over every octave to 2^27, also through PathsOf. " +
 		"Non-trivial: the span touches >= 2 bytes and (start not byte aligned or the string ends inside the span); PathsOf: >= 2 keys with dedup and at least one dropped or an all-ones path. Distinct by hash of the case.",
 	Check:    check,
 	Classify: classify,
 }
 
-// extract is the oracle: k bits available, value with those bits on top of a w-bit field.
-func extract(s string, from int32, w int) (int, uint64) {
-	avail := int64(8*len(s)) - int64(from)
+// text is the oracle's view of a string argument: its length and its bytes from the description of the case
+// (never from the memory handed to the library).
+type text struct {
+	n    int64
+	at   func(i int64) byte
+	desc func() string
+}
+
+func litText(b []byte) text {
+	return text{n: int64(len(b)), at: func(i int64) byte { return b[i] }, desc: func() string {
+		if len(b) > 48 {
+			return fmt.Sprintf("%x...(%d bytes)", b[:48], len(b))
+		}
+		return fmt.Sprintf("%x", b)
+	}}
+}
+
+func (r Ref) valid() bool {
+	switch r.K {
+	case "":
+		return true
+	case "p":
+		return r.Off >= 0 && r.Len >= 0 && r.Off+r.Len <= gen.PoolLenC11
+	case "m":
+		return r.Off >= 0 && r.Len >= 0 && r.Off+r.Len <= gen.MaxStrLen
+	}
+	return false
+}
+
+func (r Ref) text() text {
+	off, n := r.Off, r.Len
+	switch r.K {
+	case "p":
+		how := "substring"
+		if r.Own {
+			how = "own heap copy"
+		}
+		return text{n: n, at: func(i int64) byte { return gen.PoolByteC11(off + i) }, desc: func() string {
+			return fmt.Sprintf("pool[%d:%d] (%s, %d bytes, first bytes %x)", off, off+n, how, n, gen.PoolC11()[off:off+min(n, 24)])
+		}}
+	case "m":
+		return text{n: n, at: func(i int64) byte { return gen.MaxStrByte(off + i) }, desc: func() string {
+			return fmt.Sprintf("maxstring[%d:%d] (%d bytes)", off, off+n, n)
+		}}
+	}
+	return litText(r.S)
+}
+
+// str is the argument itself. A literal is handed over as vk.OddString decides from the checksum (own heap string or
+// a substring at an odd address with foreign bytes around it); pool / maximum-string references are substrings as they are.
+func (r Ref) str(sum uint64) string {
+	switch r.K {
+	case "p":
+		s := gen.PoolC11()[r.Off : r.Off+r.Len]
+		if r.Own {
+			s = string(append([]byte(nil), s...))
+		}
+		return s
+	case "m":
+		return gen.MaxString(0)[r.Off : r.Off+r.Len]
+	}
+	return vk.OddString(string(r.S), sum)
+}
+
+// damage: the shared buffers behind p / m references must still read as described.
+func (r Ref) damage() *vk.Failure {
+	switch r.K {
+	case "p":
+		if j, bad := gen.PoolDamageC11(r.Off-8, r.Off+r.Len+8); bad {
+			return vk.Failf("mutates", "byte %d of the buffer the string argument was cut from was modified", j)
+		}
+	case "m":
+		if j, bad := gen.MaxStringDamage(); bad {
+			return vk.Failf("mutates", "byte %d of the 2^28-byte buffer the string argument was cut from was modified", j)
+		}
+	}
+	return nil
+}
+
+func addrMod8(s string) int { return int(uintptr(unsafe.Pointer(unsafe.StringData(s))) & 7) }
+
+// extractT is the oracle: k bits available, value with those bits on top of a w-bit field, the bits as text.
+func extractT(x text, from int32, w int) (int, uint64, string) {
+	avail := 8*x.n - int64(from)
 	k := int64(w)
 	if avail < k {
 		k = avail
@@ -54,67 +153,132 @@ func extract(s string, from int32, w int) (int, uint64) {
 		k = 0
 	}
 	v := uint64(0)
-	for j := 0; j < int(k); j++ {
-		if model.StrBit(s, int(from)+j) == 1 {
-			v |= 1 << uint(w-1-j)
+	txt := make([]byte, k)
+	for j := int64(0); j < k; j++ {
+		p := int64(from) + j
+		bit := x.at(p>>3) >> (7 - uint(p&7)) & 1
+		if bit == 1 {
+			v |= 1 << uint(int64(w)-1-j)
 		}
+		txt[j] = '0' + bit
 	}
-	return int(k), v
+	return int(k), v, string(txt)
+}
+
+func wantPathT(x text, from int32, h int) (uint64, string) {
+	k, v, txt := extractT(x, from, h)
+	return model.PathWord(v>>uint(h-k), k, h), txt
 }
 
 func wantPath(s string, from int32, h int) (uint64, string) {
-	k, v := extract(s, from, h)
-	prefix := v >> uint(h-k)
-	txt := make([]byte, k)
-	for j := 0; j < k; j++ {
-		txt[j] = byte('0' + model.StrBit(s, int(from)+j))
-	}
-	return model.PathWord(prefix, k, h), string(txt)
+	return wantPathT(litText([]byte(s)), from, h)
 }
 
-func checkOne(s string, from int32, w int) *vk.Failure {
-	k, v := extract(s, from, w)
+// checkText: FromStr32 (when the end bit fits an int32), PathOf and PathStr on the argument s whose content the oracle knows as x.
+func checkText(s string, x text, from int32, w int) *vk.Failure {
+	if from < 0 || w < 0 || w > 32 || int64(len(s)) != x.n {
+		return nil
+	}
+	k, v, wtxt := extractT(x, from, w)
 	var gk int32
 	var gv uint64
 	if int64(from)+int64(w) <= math.MaxInt32 { // FromStr32 takes the end bit: only callable when it fits an int32
-		if f := vk.Try(fmt.Sprintf("FromStr32(%x, %d, %d)", s, from, int64(from)+int64(w)), func() { gk, gv = bitmap.FromStr32(s, from, from+int32(w)) }); f != nil {
+		if f := vk.TryF(func() string { return fmt.Sprintf("FromStr32(%s, %d, %d)", x.desc(), from, int64(from)+int64(w)) }, func() { gk, gv = bitmap.FromStr32(s, from, from+int32(w)) }); f != nil {
 			return f
 		}
 		if int(gk) != k || gv != v {
-			return vk.Failf("fromstr32", "FromStr32(s=%x, from=%d, to=%d) = (%d, %#x), want (%d, %#x)", s, from, from+int32(w), gk, gv, k, v)
+			return vk.Failf("fromstr32", "FromStr32(s=%s [data address mod 8 = %d], from=%d, to=%d) = (%d, %#x), want (%d, %#x)", x.desc(), addrMod8(s), from, from+int32(w), gk, gv, k, v)
 		}
 	}
-	wp, wtxt := wantPath(s, from, w)
+	wp := model.PathWord(v>>uint(w-k), k, w)
 	var gp uint64
 	var gtxt string
-	if f := vk.Try(fmt.Sprintf("PathOf(%x, %d, %d)", s, from, w), func() {
+	if f := vk.TryF(func() string { return fmt.Sprintf("PathOf(%s, %d, %d)", x.desc(), from, w) }, func() {
 		gp = bmtree.PathOf(s, from, int32(w))
 		gtxt = bmtree.PathStr(gp)
 	}); f != nil {
 		return f
 	}
 	if gp != wp {
-		return vk.Failf("pathof", "PathOf(s=%x, from=%d, h=%d) = %#x, want %#x", s, from, w, gp, wp)
+		return vk.Failf("pathof", "PathOf(s=%s [data address mod 8 = %d], from=%d, h=%d) = %#x, want %#x", x.desc(), addrMod8(s), from, w, gp, wp)
 	}
 	if gtxt != wtxt {
-		return vk.Failf("pathof-str", "PathStr(PathOf(s=%x, from=%d, h=%d)) = %q, want %q", s, from, w, gtxt, wtxt)
+		return vk.Failf("pathof-str", "PathStr(PathOf(s=%s, from=%d, h=%d)) = %q, want %q", x.desc(), from, w, gtxt, wtxt)
 	}
 	return nil
 }
 
+func caseSum(c Case) uint64 {
+	h := vk.Hash64(c.S) ^ vk.Mix(uint64(c.From)<<8|uint64(c.W))
+	return h
+}
+
 var scratch vk.Scratch
 
-func wantPathsOf(keys []string, from int32, h int, dedup bool) []uint64 {
-	out := []uint64{}
+// keyList is the resolved key list of a pathsof case: the distinct keys and, per list position, which of them.
+type keyList struct {
+	refs []Ref
+	idx  []int32 // nil: position i is refs[i]
+}
+
+func (c Case) keyList() (keyList, bool) {
+	kl := keyList{refs: c.Refs, idx: c.Idx}
+	if len(c.Refs) == 0 {
+		kl.refs = make([]Ref, len(c.Keys))
+		for i, k := range c.Keys {
+			kl.refs[i] = Ref{S: k}
+		}
+		kl.idx = nil
+	} else if c.Laid && kl.idx == nil {
+		kl.idx = []int32{}
+	}
+	for _, r := range kl.refs {
+		if !r.valid() {
+			return kl, false
+		}
+	}
+	for _, j := range kl.idx {
+		if j < 0 || int(j) >= len(kl.refs) {
+			return kl, false
+		}
+	}
+	return kl, true
+}
+
+func (kl keyList) n() int {
+	if kl.idx != nil {
+		return len(kl.idx)
+	}
+	return len(kl.refs)
+}
+
+func (kl keyList) ref(i int) int {
+	if kl.idx != nil {
+		return int(kl.idx[i])
+	}
+	return i
+}
+
+// want is the oracle for PathsOf: the path of every distinct key once (bit by bit), then map + drop-equal-to-predecessor.
+// lens[i] is the number of bits key i contributes.
+func (kl keyList) want(from int32, h int, dedup bool) (out []uint64, lens []int) {
+	base := make([]uint64, len(kl.refs))
+	lens = make([]int, len(kl.refs))
+	for i, r := range kl.refs {
+		x := r.text()
+		base[i], _ = wantPathT(x, from, h)
+		lens[i] = int(min(max(8*x.n-int64(from), 0), int64(h)))
+	}
+	out = []uint64{}
 	var prev uint64
-	for i, k := range keys {
-		p, _ := wantPath(k, from, h)
+	for i, n := 0, kl.n(); i < n; i++ {
+		p := base[kl.ref(i)]
 		if !(dedup && i > 0 && p == prev) {
 			out = append(out, p)
 		}
 		prev = p
 	}
-	return out
+	return out, lens
 }
 
 // checkMaxStr: FromStr32 / PathOf / PathsOf on a string of 2^28 bytes (8*len = 2^31 does not fit an int32) or a few
@@ -174,71 +338,134 @@ func checkMaxStr(from int32, w, cut int) *vk.Failure {
 	return nil
 }
 
-func check(c Case) *vk.Failure {
-	if c.Op == "maxstr" {
-		return checkMaxStr(c.From, c.W, c.Cut)
-	}
-	if c.Op == "pathsof" {
-		keys := vk.Strings(c.Keys)
-		want := wantPathsOf(keys, c.From, c.W, c.Dedup)
-		reused := len(keys) < 3000 && scratch.Reuse(vk.SumStrings(keys)+uint64(c.From)+uint64(c.W))
-		if reused {
-			keys = scratch.Strings(keys) // a reused []string (same address as earlier calls) with guarded spare capacity
-		}
-		var got []uint64
-		if f := vk.Try("PathsOf", func() { got = bmtree.PathsOf(keys, c.From, int32(c.W), c.Dedup) }); f != nil {
-			return f
-		}
-		if len(got) != len(want) {
-			return vk.Failf("pathsof", "PathsOf(%d keys %x, from=%d, h=%d, dedup=%v) returned %d paths %#x, want %d paths %#x", len(keys), keys, c.From, c.W, c.Dedup, len(got), got, len(want), want)
-		}
-		for i := range got {
-			if got[i] != want[i] {
-				return vk.Failf("pathsof", "PathsOf(keys %x, from=%d, h=%d, dedup=%v)[%d] = %#x, want %#x", keys, c.From, c.W, c.Dedup, i, got[i], want[i])
-			}
-		}
-		vk.ScribbleU64(got)
-		{
-			kept, expect, nk := got, want, len(keys)
-			keep(func() string {
-				for i := range expect {
-					if kept[i] != expect[i] {
-						return fmt.Sprintf("PathsOf(%d keys) returned %#x at position %d, which now reads %#x", nk, expect[i], i, kept[i])
-					}
-				}
-				return ""
-			})
-		}
-		for i, k := range keys {
-			if string(c.Keys[i]) != k {
-				return vk.Failf("pathsof-mutates", "key %d changed", i)
-			}
-		}
-		if reused {
-			if msg := scratch.Check(); msg != "" {
-				return vk.Failf("argument-spare-capacity-written", "PathsOf: %s", msg)
-			}
-		}
+func checkPathsOf(c Case) *vk.Failure {
+	kl, ok := c.keyList()
+	if !ok || c.From < 0 || c.W < 0 || c.W > 32 {
 		return nil
 	}
-	return checkOne(string(c.S), c.From, c.W)
+	want, _ := kl.want(c.From, c.W, c.Dedup)
+	sum := caseSum(c) ^ uint64(kl.n())
+	literal := true
+	strs := make([]string, len(kl.refs))
+	for _, r := range kl.refs {
+		sum = sum*1099511628211 ^ vk.Hash64(r.S) ^ uint64(r.Off)<<1 ^ uint64(r.Len)
+		literal = literal && r.K == ""
+	}
+	for i, r := range kl.refs {
+		strs[i] = r.str(sum + uint64(i)*0x9e37)
+	}
+	n := kl.n()
+	keys := make([]string, n)
+	for i := range keys {
+		keys[i] = strs[kl.ref(i)]
+	}
+	if n == 0 {
+		keys = vk.ShapeStrings(nil, sum) // nil or empty non-nil
+	}
+	// literal keys only: a reused []string (same address as earlier calls, fresh heap strings) with guarded spare capacity
+	reused := literal && n < 3000 && scratch.Reuse(sum)
+	if reused {
+		keys = scratch.Strings(keys)
+	}
+	descKeys := func() string {
+		out := ""
+		for i := 0; i < n && i < 12; i++ {
+			out += kl.refs[kl.ref(i)].text().desc() + " "
+		}
+		if n > 12 {
+			out += "..."
+		}
+		return out
+	}
+	var got []uint64
+	if f := vk.TryF(func() string {
+		return fmt.Sprintf("PathsOf(%d keys %s, from=%d, h=%d, dedup=%v)", n, descKeys(), c.From, c.W, c.Dedup)
+	}, func() { got = bmtree.PathsOf(keys, c.From, int32(c.W), c.Dedup) }); f != nil {
+		return f
+	}
+	if len(got) != len(want) {
+		if n > 64 {
+			return vk.Failf("pathsof", "PathsOf(%d keys %s, from=%d, h=%d, dedup=%v) returned %d paths, want %d paths", n, descKeys(), c.From, c.W, c.Dedup, len(got), len(want))
+		}
+		return vk.Failf("pathsof", "PathsOf(%d keys %s, from=%d, h=%d, dedup=%v) returned %d paths %#x, want %d paths %#x", n, descKeys(), c.From, c.W, c.Dedup, len(got), got, len(want), want)
+	}
+	for i := range got {
+		if got[i] != want[i] {
+			return vk.Failf("pathsof", "PathsOf(%d keys %s, from=%d, h=%d, dedup=%v)[%d] = %#x, want %#x", n, descKeys(), c.From, c.W, c.Dedup, i, got[i], want[i])
+		}
+	}
+	vk.ScribbleU64(got)
+	{
+		kept, expect, nk := got, want, n
+		keep(func() string {
+			for i := range expect {
+				if kept[i] != expect[i] {
+					return fmt.Sprintf("PathsOf(%d keys) returned %#x at position %d, which now reads %#x", nk, expect[i], i, kept[i])
+				}
+			}
+			return ""
+		})
+	}
+	for i, k := range keys {
+		if r := kl.refs[kl.ref(i)]; r.K == "" && string(r.S) != k {
+			return vk.Failf("pathsof-mutates", "key %d changed", i)
+		}
+	}
+	for _, r := range kl.refs {
+		if f := r.damage(); f != nil {
+			return f
+		}
+	}
+	if reused {
+		if msg := scratch.Check(); msg != "" {
+			return vk.Failf("argument-spare-capacity-written", "PathsOf: %s", msg)
+		}
+	}
+	return nil
 }
 
-func nontrivialOne(s string, from int32, w int) bool {
+func check(c Case) *vk.Failure {
+	switch c.Op {
+	case "maxstr":
+		return checkMaxStr(c.From, c.W, c.Cut)
+	case "pathsof":
+		return checkPathsOf(c)
+	case "sub":
+		if c.Ref == nil || !c.Ref.valid() {
+			return nil
+		}
+		s := c.Ref.str(caseSum(c))
+		if f := checkText(s, c.Ref.text(), c.From, c.W); f != nil {
+			return f
+		}
+		return c.Ref.damage()
+	}
+	r := Ref{S: c.S}
+	return checkText(r.str(caseSum(c)), r.text(), c.From, c.W)
+}
+
+func nontrivialOne(n int64, from int32, w int) bool {
 	if w == 0 {
 		return false
 	}
 	firstByte := int64(from) / 8
 	lastByte := (int64(from) + int64(w) - 1) / 8
-	endsInside := int64(8*len(s)) > int64(from) && int64(8*len(s)) < int64(from)+int64(w)
+	endsInside := 8*n > int64(from) && 8*n < int64(from)+int64(w)
 	touches := lastByte - firstByte + 1
 	if endsInside {
-		touches = int64(len(s)) - firstByte
+		touches = n - firstByte
 	}
-	if int64(8*len(s)) <= int64(from) {
+	if 8*n <= int64(from) {
 		return false
 	}
 	return touches >= 2 && (from&7 != 0 || endsInside)
+}
+
+func octave(n int64) string {
+	if n <= 0 {
+		return "0"
+	}
+	return fmt.Sprintf("2^%d..", bits.Len64(uint64(n))-1)
 }
 
 func classify(c Case) (bool, []string) {
@@ -247,9 +474,13 @@ func classify(c Case) (bool, []string) {
 	}
 	labels := []string{"op:" + c.Op, "class:" + c.Class}
 	if c.Op == "pathsof" {
-		keys := vk.Strings(c.Keys)
-		want := wantPathsOf(keys, c.From, c.W, c.Dedup)
-		dropped := len(want) < len(keys)
+		kl, ok := c.keyList()
+		if !ok {
+			return false, append(labels, "invalid")
+		}
+		want, lens := kl.want(c.From, c.W, c.Dedup)
+		n := kl.n()
+		dropped := len(want) < n
 		allOnes := false
 		for _, p := range want {
 			if p == ^uint64(0) {
@@ -262,32 +493,98 @@ func classify(c Case) (bool, []string) {
 		if allOnes {
 			labels = append(labels, "all-ones-path")
 		}
-		return len(keys) >= 2 && c.Dedup && (dropped || allOnes), labels
+		labels = append(labels, "keys:"+octave(int64(n)), "pathsof-start-bit:"+octave(int64(c.From)))
+		// element-wise mix: keys that end before the start bit, inside the window, and that fill it
+		var none, part, full, far bool
+		for i, r := range kl.refs {
+			switch {
+			case lens[i] == 0:
+				none = true
+			case lens[i] < c.W:
+				part = true
+			default:
+				full = true
+			}
+			if r.text().n-int64(c.From>>3) >= 16 {
+				far = true
+			}
+		}
+		if c.W > 0 && ((none && full) || (part && full) || (none && part)) {
+			labels = append(labels, "mixed-key-lengths")
+		}
+		if far {
+			labels = append(labels, "key-with->=16-bytes-after-start")
+		}
+		if n == 0 {
+			labels = append(labels, "no-keys")
+		}
+		return n >= 2 && c.Dedup && (dropped || allOnes), labels
 	}
-	s := string(c.S)
+	x := litText(c.S)
+	if c.Op == "sub" {
+		if c.Ref == nil || !c.Ref.valid() {
+			return false, append(labels, "invalid")
+		}
+		x = c.Ref.text()
+		labels = append(labels, "source:"+map[string]string{"": "literal", "p": "pool", "m": "maximum-string"}[c.Ref.K])
+		switch {
+		case c.Ref.Own:
+			labels = append(labels, "own-heap-copy")
+		case c.Ref.Off&7 != 0:
+			labels = append(labels, "substring-at-odd-address")
+		default:
+			labels = append(labels, "substring-8-aligned")
+		}
+	}
+	labels = append(labels, "len:"+octave(x.n))
 	switch {
-	case int64(c.From) > int64(8*len(s)):
+	case int64(c.From) > 8*x.n:
 		labels = append(labels, "start:beyond-end")
-	case int64(c.From) == int64(8*len(s)):
+	case int64(c.From) == 8*x.n:
 		labels = append(labels, "start:at-end")
 	default:
-		labels = append(labels, "start:inside")
+		labels = append(labels, "start:inside", "start-byte:"+octave(int64(c.From>>3)))
+		if after := x.n - int64(c.From>>3); after >= 16 {
+			labels = append(labels, "bytes-after-start:>=16")
+		} else {
+			labels = append(labels, "bytes-after-start:<16")
+		}
 	}
 	if c.From&7 != 0 {
 		labels = append(labels, "unaligned")
 	}
 	span := (int64(c.From)+int64(c.W)+7)/8 - int64(c.From)/8
 	labels = append(labels, fmt.Sprintf("span-bytes:%d", span))
-	return nontrivialOne(s, c.From, c.W), labels
+	return nontrivialOne(x.n, c.From, c.W), labels
 }
 
-func genOne(t *rapid.T) Case {
-	maxLen := vk.Pick(12, 64)
-	s := gen.Bytes(t, 0, maxLen, "s")
+// logSize draws a size in [0, 2^maxExp): the octave uniformly (0, then [2^(k-1), 2^k) for k = 1..maxExp), the
+// position inside the octave uniformly; a quarter of the draws land on 2^k-1, 2^k, 2^k+1. No size is left out.
+func logSize(t *rapid.T, maxExp int, label string) int64 {
+	k := gen.Uniform(t, maxExp+1, label+".octave")
+	if k == 0 {
+		return 0
+	}
+	lo := int64(1) << uint(k-1)
+	v := lo + int64(gen.U64(t, label)%uint64(lo))
+	if gen.Chance(t, 1, 4, label+".edge") {
+		v = lo - 1 + int64(gen.Uniform(t, 3, label+".e"))
+	}
+	return min(v, int64(1)<<uint(maxExp)-1)
+}
+
+func drawWidth(t *rapid.T) int {
 	w := gen.Uniform(t, 33, "w")
 	if gen.Chance(t, 1, 4, "wboost") {
 		w = rapid.SampledFrom([]int{0, 1, 7, 8, 9, 24, 25, 31, 32, 32}).Draw(t, "wb")
 	}
+	return w
+}
+
+func genOne(t *rapid.T) Case {
+	maxLen := vk.Pick(40, 200)
+	s := gen.Bytes(t, 0, maxLen, "s")
+	w := drawWidth(t)
 	nbits := 8 * len(s)
 	var from int64
 	cl := ""
@@ -315,14 +612,64 @@ func genOne(t *rapid.T) Case {
 	return Case{Op: "fromstr32", S: s, From: int32(from), W: w, Class: cl}
 }
 
-func genPathsOf(t *rapid.T) Case {
+// genSub: a string of 0 .. 2^24-1 bytes (log-uniform) cut out of the pool at any address alignment (or an own heap copy
+// of it), start bits over the whole string, around its end and around "16 bytes left after the start byte".
+func genSub(t *rapid.T) Case {
+	L := logSize(t, vk.Pick(22, 24), "len")
+	off := int64(gen.U64(t, "off") % uint64(gen.PoolLenC11-L+1))
+	if gen.Chance(t, 1, 6, "aligned") {
+		off &^= 7
+	}
+	own := L <= 1<<12 && gen.Chance(t, 1, 4, "own")
+	w := drawWidth(t)
+	nbits := 8 * L
+	var from int64
+	cl := ""
+	switch gen.Uniform(t, 9, "fromclass") {
+	case 0:
+		from, cl = nbits, "at-end"
+	case 1:
+		from, cl = nbits+1+int64(gen.Uniform(t, 40, "beyond")), "beyond"
+	case 2:
+		from, cl = nbits-1-int64(gen.Uniform(t, 200, "neartail")), "near-end"
+	case 3:
+		from, cl = int64(gen.Uniform(t, 256, "head")), "head"
+	case 4:
+		from, cl = logSize(t, 27, "fromlog"), "inside-log"
+		if nbits > 0 {
+			from %= nbits
+		}
+	case 5:
+		from, cl = 8*(L-18+int64(gen.Uniform(t, 5, "b16")))+int64(gen.Uniform(t, 8, "a")), "16-bytes-left"
+	default:
+		if nbits > 0 {
+			from = int64(gen.U64(t, "from") % uint64(nbits))
+		}
+		cl = "inside"
+	}
+	from = max(from, 0)
+	return Case{Op: "sub", Ref: &Ref{K: "p", Off: off, Len: L, Own: own}, From: int32(from), W: w, Class: "pool-" + cl}
+}
+
+func drawHeight(t *rapid.T) int {
 	h := gen.Uniform(t, 33, "h")
 	if gen.Chance(t, 1, 3, "h32") {
 		h = 32
 	}
+	return h
+}
+
+func genPathsOf(t *rapid.T) Case {
+	if gen.Chance(t, 1, 2, "refs") {
+		return genPathsRefs(t)
+	}
+	h := drawHeight(t)
 	from := int32(0)
 	if gen.Chance(t, 1, 2, "fromnz") {
 		from = int32(gen.Uniform(t, 24, "from"))
+		if gen.Chance(t, 1, 3, "fromwide") {
+			from = int32(gen.Uniform(t, 200, "from2"))
+		}
 	}
 	var keys []string
 	cl := ""
@@ -348,7 +695,7 @@ func genPathsOf(t *rapid.T) Case {
 		pool := [][]byte{}
 		np := 1 + gen.Uniform(t, 4, "pool")
 		for i := 0; i < np; i++ {
-			pool = append(pool, gen.Bytes(t, 0, 8, "pk"))
+			pool = append(pool, gen.Bytes(t, 0, 8+int(from)/8, "pk"))
 		}
 		n := gen.Uniform(t, 9, "n")
 		for i := 0; i < n; i++ {
@@ -358,9 +705,126 @@ func genPathsOf(t *rapid.T) Case {
 	return Case{Op: "pathsof", Keys: vk.HexStrings(keys), From: from, W: h, Dedup: gen.Chance(t, 2, 3, "dedup"), Class: cl}
 }
 
+// buildIdx lays n list positions over np distinct keys (a pure function of its arguments):
+// 0 runs of random length, 1 cyclic with repeats, 2 one key except every m-th position, 3 independent picks.
+func buildIdx(style int, seed uint64, n, np int) []int32 {
+	idx := make([]int32, n)
+	switch style & 3 {
+	case 0:
+		for i, ctr := 0, uint64(0); i < n; ctr++ {
+			z := vk.Mix(seed + ctr)
+			b, r := int32(z%uint64(np)), 1
+			if z>>8&3 == 0 {
+				r = 1 + int(z>>16%64)
+			}
+			for ; r > 0 && i < n; r, i = r-1, i+1 {
+				idx[i] = b
+			}
+		}
+	case 1:
+		rep := 1 + int(seed%3)
+		for i := range idx {
+			idx[i] = int32((i / rep) % np)
+		}
+	case 2:
+		m := []int{2, 3, 4, 16}[seed%4]
+		for i := range idx {
+			if i%m == m-1 {
+				idx[i] = int32(1 % np)
+			}
+		}
+	default:
+		for i := range idx {
+			idx[i] = int32(vk.Mix(seed+uint64(i)) % uint64(np))
+		}
+	}
+	return idx
+}
+
+// poolKey is a pool substring of L bytes; aimFF places bit fb*8 of it at the start of an all-0xff block when possible.
+func poolKey(L, fb int64, z uint64, aimFF bool) Ref {
+	L = min(max(L, 0), gen.PoolLenC11)
+	off := int64(z % uint64(gen.PoolLenC11-L+1))
+	if aimFF {
+		blk := int64(z >> 8 % (gen.PoolLenC11 >> 6))
+		for j := 0; j < 64 && gen.PoolBlockC11(blk) != 0; j++ {
+			blk = (blk + 1) % (gen.PoolLenC11 >> 6)
+		}
+		if o := blk<<6 - fb + int64(z>>40&3); gen.PoolBlockC11(blk) == 0 && o >= 0 && o+L <= gen.PoolLenC11 {
+			off = o
+		}
+	}
+	return Ref{K: "p", Off: off, Len: L}
+}
+
+// genPathsRefs: a list of 0 .. 2^13 keys (log-uniform) laid over 1..6 distinct keys of different kinds relative to the
+// start bit (ending before it, inside the window, far behind it; literal 0xff runs; prefixes and copies of one another),
+// start bit log-uniform up to 2^27.
+func genPathsRefs(t *rapid.T) Case {
+	h := drawHeight(t)
+	var from int64
+	switch gen.Uniform(t, 4, "fromclass") {
+	case 0:
+	case 1:
+		from = int64(gen.Uniform(t, 24, "from"))
+	case 2:
+		from = int64(gen.Uniform(t, 400, "from2"))
+	default:
+		from = logSize(t, 27, "fromlog")
+	}
+	fb := from >> 3
+	np := 1 + gen.Uniform(t, 6, "np")
+	var refs []Ref
+	for i := 0; i < np; i++ {
+		kind := gen.Uniform(t, 8, "kind")
+		z := gen.U64(t, "z")
+		aim := z>>50&3 == 0
+		var r Ref
+		switch {
+		case kind == 0:
+			r = poolKey(fb-int64(z>>44%3), fb, z, aim)
+		case kind == 1:
+			r = poolKey(fb+1+int64(z>>44%4), fb, z, aim)
+		case kind == 4 && fb < 64:
+			k := make([]byte, fb+5+int64(z%3))
+			for j := range k {
+				k[j] = 0xff
+			}
+			if z>>8&1 == 0 {
+				k[int(z>>16%uint64(len(k)))] = gen.Byte(t, "tb")
+			}
+			r = Ref{S: k}
+		case kind == 5 && len(refs) > 0 && refs[int(z>>20%uint64(len(refs)))].K == "p": // same start, other length
+			r = refs[int(z>>20%uint64(len(refs)))]
+			r.Own = false
+			r.Len = min(fb+int64(z>>44%24), gen.PoolLenC11-r.Off)
+		case kind == 6 && len(refs) > 0: // an equal key (the same reference, or the other of substring / own copy)
+			r = refs[int(z>>20%uint64(len(refs)))]
+			if r.K == "p" && r.Len <= 1<<12 && z>>30&1 == 0 {
+				r.Own = !r.Own
+			}
+		default:
+			r = poolKey(fb+5+int64(z>>44%60), fb, z, aim)
+			if r.Len <= 1<<12 && z>>52&3 == 0 {
+				r.Own = true
+			}
+		}
+		refs = append(refs, r)
+	}
+	n := int(logSize(t, 6, "n"))
+	if gen.Chance(t, 1, 2, "long") {
+		n = int(logSize(t, vk.Pick(13, 15), "nlong"))
+	}
+	idx := buildIdx(gen.Uniform(t, 4, "style"), gen.U64(t, "idxseed"), n, np)
+	return Case{Op: "pathsof", Refs: refs, Laid: true, Idx: idx, From: int32(from), W: h, Dedup: gen.Chance(t, 2, 3, "dedup"), Class: "key-mix"}
+}
+
 func genCase(t *rapid.T) Case {
 	if gen.Chance(t, 1, 5, "pathsof") {
 		return genPathsOf(t)
+	}
+	if gen.Chance(t, 1, 3, "sub") {
+		return genSub(t)
 	}
 	return genOne(t)
 }
@@ -393,6 +857,28 @@ func gridContents(n int) [][]byte {
 	return out
 }
 
+// sweepSizes: 2^k-1, 2^k, 2^k+1 and three seed-dependent sizes inside every octave [2^k, 2^(k+1)), k = loExp..hiExp, at most limit.
+func sweepSizes(loExp, hiExp int, limit int64, salt uint64) []int64 {
+	var out []int64
+	seen := map[int64]bool{}
+	add := func(v int64) {
+		if v >= 0 && v <= limit && !seen[v] {
+			seen[v] = true
+			out = append(out, v)
+		}
+	}
+	for k := loExp; k <= hiExp; k++ {
+		p := int64(1) << uint(k)
+		add(p - 1)
+		add(p)
+		add(p + 1)
+		for j := uint64(0); j < 3; j++ {
+			add(p + int64(vk.Mix(vk.Seed()*0x9e3779b97f4a7c15+salt<<16+uint64(k)<<4+j)%uint64(p)))
+		}
+	}
+	return out
+}
+
 // TestGrid: every (from mod 8, width, bytes remaining from the start byte) x 2 leads x 24 contents.
 func TestGrid(t *testing.T) {
 	vk.SetPhase("grid")
@@ -408,6 +894,35 @@ func TestGrid(t *testing.T) {
 			}
 		}
 	}
+	// the same with 7..40 bytes remaining from the start byte, on pool substrings (odd addresses, foreign bytes around) and own copies
+	for _, lead := range []int64{0, 5} {
+		for a := int64(0); a < 8; a++ {
+			for _, w := range []int{0, 1, 7, 8, 9, 15, 16, 17, 24, 25, 31, 32} {
+				for rem := int64(7); rem <= 40; rem++ {
+					z := vk.Mix(uint64(rem)<<20 | uint64(a)<<12 | uint64(w)<<4 | uint64(lead))
+					L := lead + rem
+					off := int64(z % uint64(gen.PoolLenC11-L-16))
+					checker.Run(t, Case{Op: "sub", Ref: &Ref{K: "p", Off: off, Len: L}, From: int32(8*lead + a), W: w, Class: "grid-rem-7..40"})
+					checker.Run(t, Case{Op: "sub", Ref: &Ref{K: "p", Off: off ^ 1 + 8, Len: L, Own: z>>60&1 == 0}, From: int32(8*lead + a), W: w, Class: "grid-rem-7..40"})
+				}
+			}
+		}
+	}
+	// string lengths over every octave up to the pool size; starts around "16 bytes left", near the end, in the middle, at the head
+	for _, L := range sweepSizes(3, 24, gen.PoolLenC11-64, 1) {
+		z := vk.Mix(uint64(L) * 0x9e3779b97f4a7c15)
+		a := int64(z >> 32 & 7)
+		for oi, off := range []int64{int64(z%64) | 1, int64(z>>8%64) &^ 7, int64(z>>16%uint64(gen.PoolLenC11-L)) | 1} {
+			for _, from := range []int64{8*(L-17) + a, 8*(L-16) + a, 8*(L-15) + (a+3)&7, 8*(L-5) + 3, 8*(L/2) + 5, 8*(L/3) + a, 8*(L-1) + 1, 3, 8*L - 33} {
+				if from < 0 {
+					continue
+				}
+				for _, w := range []int{32, 9} {
+					checker.Run(t, Case{Op: "sub", Ref: &Ref{K: "p", Off: off, Len: L, Own: oi == 1 && L <= 1<<16 && z>>40&1 == 0}, From: int32(from), W: w, Class: "grid-length-sweep"})
+				}
+			}
+		}
+	}
 	// start bits at the top of int32 (start + height no longer fits an int32)
 	for d := int32(0); d <= 70; d++ {
 		for _, w := range []int{0, 1, 8, 31, 32} {
@@ -416,6 +931,44 @@ func TestGrid(t *testing.T) {
 			}
 		}
 		checker.Run(t, Case{Op: "pathsof", Keys: []vk.Hex{vk.Hex("ab"), vk.Hex("ab"), vk.Hex("b")}, From: math.MaxInt32 - d, W: 32, Dedup: d%2 == 0, Class: "grid-start-at-top-of-int32"})
+	}
+	// PathsOf start bits over every octave up to 2^27: keys that fill the window (one twice, one as an own copy), end inside it, end before it
+	for _, fb := range sweepSizes(0, 23, gen.PoolLenC11-128, 2) {
+		z := vk.Mix(uint64(fb)*0x9e3779b97f4a7c15 + 2)
+		from := 8*fb + int64(z>>32&7)
+		k0 := poolKey(fb+20+int64(z>>36&7), fb, z, z>>50&3 == 0)
+		k1 := poolKey(fb+9, fb, vk.Mix(z), false)
+		inside, short, cp := k0, k0, k0
+		inside.Len, short.Len = fb+2, fb
+		cp.Own = cp.Len <= 1<<12
+		refs := []Ref{k0, inside, short, k1, cp}
+		for _, h := range []int{32, 24, 7} {
+			for _, dedup := range []bool{true, false} {
+				checker.Run(t, Case{Op: "pathsof", Refs: refs, Idx: []int32{0, 0, 1, 1, 2, 2, 3, 0, 4, 3, 3, 1}, From: int32(from), W: h, Dedup: dedup, Class: "grid-start-sweep"})
+			}
+		}
+	}
+	// PathsOf list lengths over every octave up to 2^14 (the large ones under every GOMAXPROCS setting of a procs process)
+	for _, n64 := range sweepSizes(0, vk.Pick(13, 15), 40000, 3) {
+		n := int(n64)
+		z := vk.Mix(uint64(n)*0x9e3779b97f4a7c15 + 3)
+		from := []int64{0, 3, 77, 8*1000 + 5}[z>>20&3]
+		fb := from >> 3
+		refs := []Ref{
+			poolKey(fb+20, fb, z, false),
+			{S: append(make([]byte, fb), 0xff, 0xff, 0xff, 0xff, 0xff)},
+			poolKey(fb+2, fb, vk.Mix(z+1), false),
+			poolKey(fb+40, fb, vk.Mix(z+2), true),
+			poolKey(fb, fb, vk.Mix(z+3), false),
+		}
+		for style := 0; style < 4; style++ {
+			c := Case{Op: "pathsof", Refs: refs, Laid: true, Idx: buildIdx(style, z+uint64(style), n, len(refs)), From: int32(from), W: []int{32, 24, 32, 9}[style], Dedup: style != 3 || z&1 == 0, Class: "grid-list-length-sweep"}
+			if n >= 100 && style&1 == 0 { // runs; one key except every m-th position
+				vk.ProcsSweep(func() { checker.Run(t, c) })
+			} else {
+				checker.Run(t, c)
+			}
+		}
 	}
 	// very long key lists (size thresholds): runs of equal paths that straddle every multiple of 1024
 	for _, n := range []int{4095, 4096, 4097, 8192, 12288, 20011} {
@@ -446,6 +999,58 @@ func TestLast(t *testing.T) {
 				if from >= 0 && from <= math.MaxInt32 {
 					checker.Run(t, Case{Op: "maxstr", From: int32(from), W: w, Cut: cut, Class: "grid-maximum-string"})
 				}
+			}
+		}
+	}
+	// substrings of the maximum string of every length up to 2^28 bytes that END at its non-zero tail (13 bytes):
+	// start bits around the end of a string of L bytes, for L over every octave
+	run := func(c Case) {
+		if c.From >= 0 {
+			checker.Run(t, c)
+		}
+	}
+	i32 := func(v int64) int32 {
+		if v < 0 || v > math.MaxInt32 {
+			return -1
+		}
+		return int32(v)
+	}
+	for _, cut := range []int64{0, 3} {
+		end := gen.MaxStrLen - cut
+		for _, L := range sweepSizes(4, 28, end, 4+uint64(cut)) {
+			L8, a := 8*L, int64(vk.Mix(uint64(L))&7)
+			r := Ref{K: "m", Off: end - L, Len: L}
+			for _, from := range []int64{L8 - 104, L8 - 99, L8 - 71, L8 - 40, L8 - 39, L8 - 33, L8 - 17, L8 - 9, L8 - 1, L8, L8 + 5, 8*(L-17) + a, 8*(L-16) + a} {
+				for _, w := range []int{32, 25, 9} {
+					r := r
+					run(Case{Op: "sub", Ref: &r, From: i32(from), W: w, Class: "last-maxstring-tail-sweep"})
+				}
+			}
+			shorter, other := r, r
+			shorter.Len--
+			other.Off, other.Len = max(r.Off-8, 0), r.Off+r.Len-max(r.Off-8, 0)
+			for _, from := range []int64{L8 - 39, L8 - 104 + a} {
+				run(Case{Op: "pathsof", Refs: []Ref{r, r, shorter, other, {S: vk.Hex("A")}, r}, From: i32(from), W: 32, Dedup: a&1 == 0, Class: "last-maxstring-tail-sweep"})
+			}
+		}
+	}
+	// substrings that have the two non-zero bytes of the middle of the maximum string at byte X, X+1, for X over every octave up to 2^27
+	for _, X := range sweepSizes(0, 27, gen.MaxStrLen/2, 6) {
+		off := int64(gen.MaxStrLen/2) - X
+		toEnd := gen.MaxStrLen - off
+		for _, L := range []int64{toEnd, X + 2, X + 1, X + 18} {
+			r := Ref{K: "m", Off: off, Len: L}
+			for _, from := range []int64{8*X - 29, 8*X - 3, 8 * X, 8*X + 5, 8*X + 9} {
+				for _, w := range []int{32, 9} {
+					r := r
+					run(Case{Op: "sub", Ref: &r, From: i32(from), W: w, Class: "last-maxstring-middle-sweep"})
+				}
+			}
+		}
+		long, dup, one, all := Ref{K: "m", Off: off, Len: X + 18}, Ref{K: "m", Off: off, Len: X + 19}, Ref{K: "m", Off: off, Len: X + 1}, Ref{K: "m", Off: off, Len: toEnd}
+		for _, from := range []int64{8*X - 3, 8*X + 1} {
+			for _, h := range []int{32, 9} {
+				run(Case{Op: "pathsof", Refs: []Ref{long, dup, one, one, all, {S: vk.Hex("A")}, long}, From: i32(from), W: h, Dedup: X&1 == 0, Class: "last-maxstring-middle-sweep"})
 			}
 		}
 	}
